@@ -233,6 +233,9 @@ func Run(c *common.Ctx) error {
 	if err := sameOwnerRace(c); err != nil {
 		return err
 	}
+	if err := rangeInterference(c); err != nil {
+		return err
+	}
 	if err := rangeAttempts(c); err != nil {
 		return err
 	}
